@@ -80,8 +80,9 @@ struct Prog {
   int rebuilds = 0, stale_used = 0; size_t max_stored = 0;
   Prog(Ctx& c_) : c(c_), t(c_.t) {}
 
-  void ck(const char* id, bool ok, const std::function<std::string()>& msg) { c.check(id, ok, [&] { return op + ": " + msg(); }); }
-  void ck(const char* id, bool ok, const char* msg) { c.check(id, ok, [&] { return op + ": " + msg; }); }
+  // a failing check that is muted (--survey / --mute) ends the case: the state is no longer trustworthy
+  void ck(const char* id, bool ok, const std::function<std::string()>& msg) { if (!ok && muted().count(id)) throw Inconclusive(std::string("muted ") + id); c.check(id, ok, [&] { return op + ": " + msg(); }); }
+  void ck(const char* id, bool ok, const char* msg) { if (!ok && muted().count(id)) throw Inconclusive(std::string("muted ") + id); c.check(id, ok, [&] { return op + ": " + msg; }); }
 
   // a rebuild that matters for the non-trivial rule: the reserved size changed and one side is a tree of depth >= 5
   static bool big_change(dimension_type a, dimension_type b) { return a != b && std::max(a, b) >= 31; }
